@@ -121,7 +121,27 @@ func genBlockOpts(r *rng.R, nvals int) BlockOpts {
 	return o
 }
 
+// paramsFor draws a genesis of the shared generator: the small family, sometimes with an ETH
+// chain-driver option, sometimes of the fork family.
 func paramsFor(r *rng.R, seed uint64) Params {
+	p := paramsBase(r, seed)
+	// every fourth genesis belongs to the fork family: the Frankenstein update (OLVM on, minimal
+	// self delegation 500000) happens at an early block, the genesis validators stake enough to
+	// survive it, and three Ethereum-keyed accounts are funded
+	if r.Intn(4) == 0 {
+		p.Frankenstein = int64(1 + r.Intn(5))
+		p.NEth = 3
+		p.GenesisStake = nil
+		for i := 0; i < p.NVals; i++ {
+			p.GenesisStake = append(p.GenesisStake, int64(500000+100000*r.Intn(4)+i))
+		}
+	}
+	return p
+}
+
+// paramsBase is paramsFor without the fork family (engines whose scripted scenarios fix the
+// genesis stakes, or whose monitors read the governance options, use it).
+func paramsBase(r *rng.R, seed uint64) Params {
 	p := SmallParams(seed)
 	p.NVals = 2 + r.Intn(4)
 	p.NCandidates = 1 + r.Intn(3)
@@ -142,17 +162,6 @@ func paramsFor(r *rng.R, seed uint64) Params {
 	// trackers and their role-dependent block-end transitions are part of the history
 	if p.Witnesses > 0 && r.Intn(3) == 0 {
 		p.ETH = EthOption(int64(200+r.Intn(600)), int64(200+r.Intn(600)))
-	}
-	// every fourth genesis belongs to the fork family: the Frankenstein update (OLVM on, minimal
-	// self delegation 500000) happens at an early block, the genesis validators stake enough to
-	// survive it, and three Ethereum-keyed accounts are funded
-	if r.Intn(4) == 0 {
-		p.Frankenstein = int64(1 + r.Intn(5))
-		p.NEth = 3
-		p.GenesisStake = nil
-		for i := 0; i < p.NVals; i++ {
-			p.GenesisStake = append(p.GenesisStake, int64(500000+100000*r.Intn(4)+i))
-		}
 	}
 	return p
 }
